@@ -56,13 +56,30 @@ namespace TrRouting
   int CommonParameters::getIntegerValue(std::string strValue) {
     try
     {
-      return std::stoi(strValue);
+      // the whole value must be a number: std::stoi alone accepts any numeric prefix ("12abc" -> 12)
+      size_t parsedLength = 0;
+      int value = std::stoi(strValue, &parsedLength);
+      if (parsedLength != strValue.size())
+      {
+        throw std::invalid_argument(strValue);
+      }
+      return value;
     }
     catch (...)
     {
       // Throwing an error, but do we want to fallback to default and just ignore this one?
       throw ParameterException(ParameterException::Type::INVALID_NUMERICAL_DATA);
     }
+  }
+
+  double CommonParameters::getCoordinateValue(const std::string &strValue) {
+    size_t parsedLength = 0;
+    double value = std::stod(strValue, &parsedLength);
+    if (parsedLength != strValue.size())
+    {
+      throw std::invalid_argument(strValue);
+    }
+    return value;
   }
 
   CommonParameters CommonParameters::createCommonParameter(std::vector<std::pair<std::string, std::string>> &parameters, const std::map<boost::uuids::uuid, Scenario> &scenarios)
